@@ -1045,3 +1045,29 @@ def impl_c20(case, scratch):
         return {"outcome": "ok", "results": results, "before": before, "after": after, "files": sorted(os.listdir(d))}
     finally:
         shutil.rmtree(d, ignore_errors=True)
+
+
+# ---------------------------------------------------------------- C07
+def impl_c07(case, scratch):
+    """case: body (Lua source of function main), timeout, followups: list of wikitext"""
+    import time
+    ctx = new_ctx(scratch)
+    try:
+        ctx.add_page("Module:ustring:ustring", 828, USTRING_STUB, model="Scribunto")
+        ctx.add_page("Module:echo", 828, ECHO_MODULE, model="Scribunto")
+        ctx.add_page("Module:hang", 828, "local e = {}\nfunction e.main(frame)\n" + case["body"] + "\nend\nreturn e", model="Scribunto")
+        ctx.add_page("Template:a", 10, "A[{{{1|}}}]")
+        ctx.db_conn.commit()
+        ctx.start_page("Tt")
+        warm = ctx.expand("{{#invoke:echo|main|w}}")            # Lua start-up is not part of the measured time
+        t0 = time.time()
+        out = ctx.expand("{{#invoke:hang|main}}", timeout=case["timeout"])
+        dt = time.time() - t0
+        follow = []
+        for t in case.get("followups", []):
+            ctx.start_page("Tt")
+            follow.append(ctx.expand(t, timeout=case["timeout"]))
+        return {"outcome": "ok", "out": out[:200], "dt": round(dt, 2), "follow": follow, "stack": list(ctx.expand_stack),
+                "env": len(ctx.lua_env_stack), "warm": warm}
+    finally:
+        close_ctx(ctx)
